@@ -194,3 +194,60 @@ def _referenced_bodies(b):
             i = txt.find(p, j)
     _ref_cache[id(b)] = (b, out)
     return out
+
+
+# ---- private helpers: judged in the context of their callers -------------------------------------
+def private_helpers(crate, adt_suffix, exclude=()):
+    """non-public, non-recursive inherent methods / associated fns of the ADT that are not among the
+    role functions `exclude` (bodies): extracted helpers are inlined into the analysis of their callers"""
+    ex = {b.key for b in exclude if b is not None}
+    return [b for b in methods_of(crate, adt_suffix) if b.vis != "pub" and b.key not in ex and not self_recursive(b)]
+
+
+def analyser(helpers, **kw):
+    inl = frozenset(h.key for h in helpers)
+    if not inl:
+        return lambda b: analyse(b, **kw)
+    return lambda b: analyse(b, inline=inl, **kw)
+
+
+def helper_callees(crate, b, helpers):
+    """helpers reachable from b through direct calls (transitively through other helpers)"""
+    hk = {h.key: h for h in helpers}
+    out, work = {}, [b]
+    while work:
+        x = work.pop()
+        for cb in [x] + list(crate.closures_of(x)):
+            for bb, t in cb.calls():
+                k = callee_key(t)
+                if k in hk and k not in out:
+                    out[k] = hk[k]
+                    work.append(hk[k])
+    return list(out.values())
+
+
+def closures_with_helpers(crate, b, helpers):
+    out = list(crate.closures_of(b))
+    for h in helper_callees(crate, b, helpers):
+        out.extend(crate.closures_of(h))
+    return out
+
+
+def allowed_writers(crate, allowed_names, helpers):
+    """names of functions that may write: the given ones plus private helpers all of whose callers may"""
+    allowed = set(allowed_names)
+    callers = {}
+    for b in crate.bodies:
+        root = b
+        while root.is_closure and crate.by_key.get(root.parent) is not None:
+            root = crate.by_key[root.parent]
+        for bb, t in b.calls():
+            callers.setdefault(callee_key(t), set()).add(root.name)
+    changed = True
+    while changed:
+        changed = False
+        for h in helpers:
+            if h.name not in allowed and callers.get(h.key) and callers[h.key] <= allowed:
+                allowed.add(h.name)
+                changed = True
+    return allowed
